@@ -272,10 +272,30 @@ func c12Check(x *core.Ctx, c *core.Case) {
 			return
 		}
 		if errs := validator.Validate(schema, doc); len(errs) > 0 {
-			x.Count("skipped:document-rejected")
-			return
+			x.Count("rejected_documents_formatted")
 		}
 		x.Count("validated_documents_formatted")
+	} else if core.HashString(src)%2 == 0 {
+		// a validation whose verdict nobody looks at (against a schema that has nothing to do with the document): what it
+		// leaves on the tree - variables marked used or not, links - is not part of the document (after seeded change
+		// C12-wave10-B: the formatter printed only the variable definitions marked used once any was)
+		validator.Validate(c20TinySchema(), doc)
+		x.Count("documents_formatted_after_an_unrelated_validation")
+	}
+	if core.HashString(src)%8 == 3 && len(doc.Operations)+len(doc.Fragments) >= 2 {
+		// one document put together from two sources (the same text read from two files): the definitions of the first file,
+		// then those of the second, is what was put together and what must come back
+		if doc2, err2 := parser.ParseQuery(&ast.Source{Name: "c12-second.graphql", Input: src}); err2 == nil {
+			both := &ast.QueryDocument{Operations: append(append(ast.OperationList{}, doc.Operations...), doc2.Operations...), Fragments: append(append(ast.FragmentDefinitionList{}, doc.Fragments...), doc2.Fragments...)}
+			wantBoth := model.FromAST(both)
+			out := fmtQuery(both, nil)
+			x.Count("two_source_documents")
+			if back, perr := parser.ParseQuery(&ast.Source{Name: "formatted.graphql", Input: out}); perr != nil {
+				x.Violate("two-sources:reparse-fails("+templateOf(perr.Error())+")", perr.Error()+"\nformatted:\n"+out, "formatted text parses")
+			} else if code, detail := model.DiffDocs(wantBoth, model.FromAST(back)); code != "" {
+				x.Violate("two-sources:model-differs("+code+")", detail+"\nformatted:\n"+out, "the definitions of the first source, then those of the second")
+			}
+		}
 	}
 	ft := featuresOf(want, src)
 	x.Count("roundtrips")
